@@ -198,6 +198,8 @@ func propC10(p *Prog, r *Report) {
 	c10StreamReader(p, r)
 	c10Gating(p, r)
 	c10ChunkSaved(p, r, "C10.c")
+	r.Rule("C10.h", "the resume accounting assumes Read/Write pairs: the source handed to io.Copy in content.Store is, on every path, a value whose concrete type has no WriteTo (the destination none with ReadFrom)")
+	c10CopySourceIsPlainReader(p, r, "C10.h")
 }
 
 func c10Retry(p *Prog, r *Report) {
